@@ -29,7 +29,10 @@ import (
 	"verifshim/simhook"
 )
 
-type P struct{ env *core.Env }
+type P struct {
+	env  *core.Env
+	pcfg probe.ParCfg
+}
 
 func New() core.Property { return &P{} }
 
@@ -152,13 +155,25 @@ func (p *P) Run(src *tape.Source, trace bool) *core.Result {
 	// instances for the direct entry points
 	var tkz *tokenizer.Tokenizer
 	var par *parser.Parser
+	// the holder's configuration of the parser used by the direct entry points
+	pcfg := probe.ParCfg{}
+	switch src.Intn(4, "c11.pcfg") {
+	case 1:
+		pcfg.Dialect = "mysql"
+	case 2:
+		pcfg.Strict = true
+	case 3:
+		pcfg.Dialect, pcfg.Strict = "sqlserver", true
+	}
+	p.pcfg = pcfg
 	newInst := func() {
 		if pooled {
 			tkz = tokenizer.GetTokenizer()
 			par = parser.GetParser()
+			par.ApplyOptions(pcfg.Opts()...)
 		} else {
 			tkz, _ = tokenizer.New()
-			par = parser.NewParser()
+			par = parser.NewParser(pcfg.Opts()...)
 		}
 	}
 	newInst()
@@ -241,13 +256,13 @@ func (p *P) Run(src *tape.Source, trace bool) *core.Result {
 			}
 		case eParseCtxModel:
 			var a *ast.AST
-			a, err = parser.NewParser().ParseFromModelTokens(modelToks)
+			a, err = parser.NewParser(pcfg.Opts()...).ParseFromModelTokens(modelToks)
 			if a != nil {
 				tree = a
 			}
 		case eParseCtx:
 			var a *ast.AST
-			a, err = parser.NewParser().Parse(parserToks)
+			a, err = parser.NewParser(pcfg.Opts()...).Parse(parserToks)
 			if a != nil {
 				tree = a
 			}
@@ -434,7 +449,7 @@ func (p *P) residue(r *core.Result, src *tape.Source, ctl *pool.Ctl, entry int, 
 		}
 	case eParseCtx, eParseCtxModel:
 		used := parBattery(par, full, rot)
-		fresh := parBattery(probe.FreshParser(probe.ParCfg{}), full, rot)
+		fresh := parBattery(probe.FreshParser(p.pcfg), full, rot)
 		if n, part, d := probe.Compare(used, fresh); n != "" {
 			fail("parser", n, part, d)
 		}
